@@ -1,4 +1,5 @@
 import QuaiVerif.Lemmas.TrieInsert
+import QuaiVerif.Lemmas.TrieDelete
 /-
 C18 — A trie's root depends only on its contents, and proofs prove exactly them.
 
@@ -89,6 +90,78 @@ theorem C18_keyToHex_is_hexKey (k : Bytes) (hb : ∀ x ∈ k, x < 256) : HexKey 
   have := hb b hbk
   simp at hxb
   rcases hxb with rfl | rfl <;> omega
+
+/-! ### deletions -/
+
+/-- **C18 (lookup after delete)** in every well-formed trie, for all keys: after deleting `key` a lookup of `key`
+finds nothing and every other key is unaffected - through every collapse of a branch with one remaining child and
+every merge of a short node with its short child. -/
+theorem C18_get_after_delete {t : Node} (hwf : WF t) (key : List Nat) (hk : HexKey key) (key' : List Nat) (hk' : HexKey key') :
+    get (delete t key) key' = if key' = key then none else get t key' :=
+  get_delete hwf key hk key' hk'
+
+/-- **C18 (invariant)** well-formedness is preserved by every delete. -/
+theorem C18_delete_preserves_wf {t : Node} (hwf : WF t) (key : List Nat) (hk : HexKey key) : WF (delete t key) :=
+  wf_delete hwf key hk
+
+/-- a history of updates: `some v` writes, `none` deletes (Trie.Update with an empty value) -/
+def runOps (t : Node) (h : List (List Nat × Option Bytes)) : Node :=
+  h.foldl (fun t kv => match kv.2 with | some v => insert t kv.1 (.value v) | none => delete t kv.1) t
+
+def contentOps (base : List Nat → Option Bytes) (h : List (List Nat × Option Bytes)) : List Nat → Option Bytes :=
+  h.foldl (fun f kv => fun k => if k = kv.1 then kv.2 else f k) base
+
+theorem runOps_refines (h : List (List Nat × Option Bytes)) (hh : ∀ kv ∈ h, HexKey kv.1) :
+    ∀ (t : Node), WF t → WF (runOps t h) ∧
+      ∀ key', HexKey key' → get (runOps t h) key' = contentOps (fun k => get t k) h key' := by
+  induction h with
+  | nil => intro t hwf; exact ⟨hwf, fun _ _ => rfl⟩
+  | cons kv rest ih =>
+    intro t hwf
+    have hk : HexKey kv.1 := hh kv (by simp)
+    -- one step
+    have hstep : WF (runOps t [kv]) ∧ ∀ k, HexKey k → get (runOps t [kv]) k = if k = kv.1 then kv.2 else get t k := by
+      cases hv : kv.2 with
+      | some v =>
+        simp only [runOps, List.foldl_cons, List.foldl_nil, hv]
+        exact ⟨wf_insert hwf kv.1 hk v, fun k hk2 => get_insert hwf kv.1 hk v k hk2⟩
+      | none =>
+        simp only [runOps, List.foldl_cons, List.foldl_nil, hv]
+        exact ⟨wf_delete hwf kv.1 hk, fun k hk2 => get_delete hwf kv.1 hk k hk2⟩
+    obtain ⟨h1, h2⟩ := ih (fun x hx => hh x (by simp [hx])) _ hstep.1
+    have hunf : runOps t (kv :: rest) = runOps (runOps t [kv]) rest := by simp [runOps]
+    rw [hunf]
+    refine ⟨h1, ?_⟩
+    intro key' hk'
+    rw [h2 key' hk']
+    simp only [contentOps, List.foldl_cons]
+    suffices H : ∀ (l : List (List Nat × Option Bytes)) (f g : List Nat → Option Bytes), (∀ k, HexKey k → f k = g k) →
+        ∀ k, HexKey k →
+          l.foldl (fun f kv => fun k => if k = kv.1 then kv.2 else f k) f k =
+          l.foldl (fun f kv => fun k => if k = kv.1 then kv.2 else f k) g k from
+      H rest _ _ (fun k hk2 => hstep.2 k hk2) key' hk'
+    intro l
+    induction l with
+    | nil => intro f g hfg k hk2; exact hfg k hk2
+    | cons a l ihl =>
+      intro f g hfg k hk2
+      simp only [List.foldl_cons]
+      refine ihl _ _ ?_ k hk2
+      intro k' hk3
+      by_cases e : k' = a.1 <;> simp [e, hfg k' hk3]
+
+/-- **C18 (refinement to a map, every history of writes and deletes)** from the empty trie, after any sequence of
+insertions and deletions, every lookup returns the last value written for that key, or nothing if it was deleted
+last or never written. -/
+theorem C18_update_history_refines_map (h : List (List Nat × Option Bytes)) (hh : ∀ kv ∈ h, HexKey kv.1)
+    (key' : List Nat) (hk' : HexKey key') :
+    get (runOps .nil h) key' = contentOps (fun _ => none) h key' := by
+  have := (runOps_refines h hh .nil WF.nil).2 key' hk'
+  simpa [get_nil] using this
+
+example : get (runOps .nil [(keyToHex [1, 2], some [7]), (keyToHex [1], some [8]), (keyToHex [1, 2], none)]) (keyToHex [1]) = some [8] ∧
+          get (runOps .nil [(keyToHex [1, 2], some [7]), (keyToHex [1], some [8]), (keyToHex [1, 2], none)]) (keyToHex [1, 2]) = none := by
+  decide
 
 /-! ### Non-vacuity: a concrete history with a shared prefix and a key that is a prefix of another -/
 example : get (runInserts .nil [(keyToHex [1, 2], [7]), (keyToHex [1], [8]), (keyToHex [1, 2], [9])]) (keyToHex [1, 2]) = some [9] := by
